@@ -31,6 +31,8 @@ EXTENDS Client, Integers, Json, IOUtils
 
 CONSTANTS MINB,      \* minimal back-off between two attempts of a retrier (ms), with slack
           SLACK,     \* slack of the bounded-time obligations (ms)
+          PROC,      \* an answer that has arrived is acted upon within this time (ms): nothing but computation and a
+                     \* database write lies in between
           CAP        \* more compatible states than this: the scenario is too ambiguous to be judged, the validator says
                      \* so (tag VALIDATOR) and skips to the next scenario
 
@@ -190,6 +192,10 @@ ObsMon(e, m) ==
                                         THEN e.ts ELSE @[t]],
               !.sawUnr = [t \in Towers |-> @[t] \/ \E x \in MemOf(e, t) : x.status = "unreachable"]]
 
+\* states in which the call e answers had already taken effect (with that answer) / has not yet
+Early(C, e) == {[s EXCEPT !.rpc = @ \ {<<e.id, e.res>>}] : s \in {x \in C : <<e.id, e.res>> \in x.rpc}}
+Late(C, e) == {x \in C : \A r \in x.rpc : r[1] # e.id}
+
 R(e, C) ==
     CASE e.ev = "start" -> Res({}, {}, [Mon0 EXCEPT !.name = e.name])
       [] e.ev = "boot" ->
@@ -198,6 +204,11 @@ R(e, C) ==
       [] e.ev = "call" ->
            (CASE e.m = "notify" -> Res(UNION {NotifyCall(s, e.id, e.l) : s \in C}, {}, Touch(mon, Towers, e.ts))
               [] e.m = "registertower" -> Res(UNION {RegCall(s, e.id, e.t) : s \in C}, {}, Touch(mon, {e.t}, e.ts))
+              \* retrytower / abandontower take effect at some moment between the call and its answer: possibly at once
+              [] e.m \in {"retrytower", "abandontower"} ->
+                   Res(C \cup {[p[1] EXCEPT !.rpc = @ \cup {<<e.id, p[2]>>}] :
+                                 p \in UNION {IF e.m = "retrytower" THEN ManualRetry(s, e.t) ELSE Abandon(s, e.t) : s \in C}},
+                       {}, Touch(mon, {e.t} \cap Towers, e.ts))
               [] OTHER -> Res(C, {}, Touch(mon, {e.t} \cap Towers, e.ts)))
       [] e.ev = "ret" /\ C # {} /\ \A s \in C : ~s.alive ->
            \* an answer given just before a SIGKILL may be read (and logged) by the rig after it
@@ -213,11 +224,11 @@ R(e, C) ==
                       IF B # {} THEN Res(B, {}, Touch(mon, {e.t}, e.ts))
                       ELSE Res({DropTask(s, e.id) : s \in C}, T("C14", "RegRecorded.answer_" \o want), mon))
               [] e.m = "retrytower" ->
-                   Let1({p[1] : p \in {q \in UNION {ManualRetry(s, e.t) : s \in C} : q[2] = e.res}}, LAMBDA B :
+                   Let1(Early(C, e) \cup {p[1] : p \in {q \in UNION {ManualRetry(s, e.t) : s \in Late(C, e)} : q[2] = e.res}}, LAMBDA B :
                       IF B # {} THEN Res(B, {}, Touch(mon, {e.t}, e.ts))
                       ELSE Res(C, T("C13", "ManualRetryGate.answer_" \o e.res), mon))
               [] e.m = "abandontower" ->
-                   Let1({p[1] : p \in {q \in UNION {Abandon(s, e.t) : s \in C} : q[2] = e.res}}, LAMBDA B :
+                   Let1(Early(C, e) \cup {p[1] : p \in {q \in UNION {Abandon(s, e.t) : s \in Late(C, e)} : q[2] = e.res}}, LAMBDA B :
                       IF B # {} THEN Res(B, {}, Touch(mon, {e.t}, e.ts))
                       ELSE Res(C, T("C05", "conf.abandon_answer_" \o e.res), mon))
               [] OTHER -> Res(C, {}, mon))
@@ -275,7 +286,8 @@ R(e, C) ==
       [] e.ev = "probe" ->
            Let1({s \in C : e.answered = (s.alive /\ ~s.poisoned)}, LAMBDA B :
               IF B # {} THEN Res(B, {}, mon) ELSE Res(C, T("C14", "Survives.probe_not_answered"), mon))
-      [] e.ev = "abort" -> Res(bel, T("ABORT", e.site), mon)
+      \* a panic of the code under test is data; "poisoned:" = lock().unwrap() on the mutex an earlier panic poisoned
+      [] e.ev = "abort" -> Res(bel, T("ABORT", IF e.poison THEN "poisoned:" \o e.site ELSE e.site \o " " \o e.msg), mon)
       [] e.ev = "end" -> Res(bel, IF e.inconclusive # <<>> THEN T("INCONCLUSIVE", e.inconclusive[1]) ELSE {}, mon)
       [] OTHER -> Res(bel, {}, mon)
 
@@ -283,12 +295,24 @@ R(e, C) ==
 Monitors == <<
     <<"C05", "NeverLost">>, <<"C05", "ExactlyOne">>, <<"C05", "DataForResend">>,
     <<"C13", "OneLoop">>, <<"C13", "EndsUnreachable">>,
-    <<"C14", "BadSig">>, <<"C14", "Misbehaving">>, <<"C14", "Survives">> >>
+    <<"C14", "BadSig">>, <<"C14", "Misbehaving">>, <<"C14", "Survives">>,
+    \* what is reported is what is stored (C18, for the flows only the binary has): misbehaving <=> proof on disk
+    <<"C18", "MemEqDisk.misbehaving">> >>
 
 Holds(name, s) ==
     CASE name = "NeverLost" -> NeverLost(s) [] name = "ExactlyOne" -> ExactlyOne(s) [] name = "DataForResend" -> DataForResend(s)
       [] name = "OneLoop" -> OneLoop(s) [] name = "EndsUnreachable" -> EndsUnreachable(s)
       [] name = "BadSig" -> BadSig(s) [] name = "Misbehaving" -> Misbehaving(s) [] name = "Survives" -> Survives(s)
+      [] name = "MemEqDisk.misbehaving" -> Misbehaving(s)
+
+\* answers (their classes) a task of s has been sitting on since before now - PROC
+StaleReps(s, now) ==
+    IF ~s.alive \/ s.poisoned THEN {}
+    ELSE {n.rep.cls : n \in {x \in s.nots : x.pc = "got" /\ now - x.rep.ts > PROC}}
+         \cup {g.rep.cls : g \in {x \in s.regs : x.pc = "got" /\ now - x.rep.ts > PROC}}
+         \cup {s.rt[t].rep.cls : t \in {x \in Towers : /\ s.rt[x].s = "running"
+                                                        /\ s.rt[x].pc \in {"got", "reggot", "got2", "end_sub", "end_misb"}
+                                                        /\ s.rt[x].rep.cls # "none" /\ now - s.rt[x].rep.ts > PROC}}
 
 NeedsClosure(e) == e.ev \notin {"start", "boot", "mode", "abort", "end", "waited", "note", "skipped", "other_req"}
 
@@ -297,7 +321,10 @@ Step ==
     \E r \in {IF mon.skip /\ Ev.ev # "start" THEN Res({}, {}, mon)
               ELSE IF Cardinality(C) > CAP THEN Res({}, T("VALIDATOR", "too many compatible states"), [mon EXCEPT !.skip = TRUE])
               ELSE R(Ev, C)} :
-    \E B \in {r.bel} :
+    \E B0 \in {r.bel} :
+    \E stale \in {IF B0 # {} /\ "Stale" \notin r.mon.flagged /\ \A s \in B0 : StaleReps(s, Ev.ts) # {}
+                  THEN UNION {StaleReps(s, Ev.ts) : s \in B0} ELSE {}} :
+    \E B \in {IF stale # {} \/ "Stale" \in r.mon.flagged THEN B0 ELSE {s \in B0 : StaleReps(s, Ev.ts) = {}}} :
     \E newdev \in {IF B = {} THEN {} ELSE {d \in UNION {s.dev : s \in B} : \A s \in B : d \in s.dev} \ r.mon.devs} :
     \E viol \in {IF B = {} THEN {}
                  ELSE {i \in 1..Len(Monitors) : Monitors[i][2] \notin r.mon.flagged /\ \A s \in B : ~Holds(Monitors[i][2], s)}} :
@@ -305,7 +332,10 @@ Step ==
        /\ tags' = tags \cup r.tags
                    \cup UNION {T(PropOfDev(d), "dev:" \o d) : d \in newdev \ {"S16"}}
                    \cup UNION {T(Monitors[i][1], Monitors[i][2]) : i \in viol}
-       /\ mon' = [r.mon EXCEPT !.devs = @ \cup newdev, !.flagged = @ \cup {Monitors[i][2] : i \in viol}, !.lastTs = Ev.ts]
+                   \cup (IF stale \cap {"badsig", "malsig"} # {} THEN T("C14", "BadSig.answer_not_acted_upon") ELSE {})
+                   \cup (IF stale \ {"badsig", "malsig"} # {} THEN T("C05", "conf.answer_not_acted_upon") ELSE {})
+       /\ mon' = [r.mon EXCEPT !.devs = @ \cup newdev, !.lastTs = Ev.ts,
+                               !.flagged = @ \cup {Monitors[i][2] : i \in viol} \cup (IF stale # {} THEN {"Stale"} ELSE {})]
 
 StepEof ==
     /\ PrintT(<<"TRACE-END", ln, ToJson(tags)>>)
